@@ -60,6 +60,7 @@ type SReq struct {
 	Method  string `json:"method"`
 	Asm     bool   `json:"asm"`
 	GServed bool   `json:"served"` // the generator's own Served(chain), echoed for cross-checking
+	Gen     bool   `json:"-"`      // the request came from the TLC generator (served is meaningful)
 }
 
 type shareInput struct {
@@ -74,7 +75,6 @@ func chunkData(id int) string {
 	return s[:chunkLen]
 }
 
-const zeroRef = "sha224-00000000000000000000000000000000000000000000000000000000"
 
 // toWorld renders the share world as a verif/world World. Contents that embed refs (mentions,
 // merge sets) are computed from refs, the refs found by the previous pass.
@@ -83,7 +83,7 @@ func toWorld(sw *SWorld, refs map[int]string) *world.World {
 		if r, ok := refs[id]; ok {
 			return r
 		}
-		return zeroRef
+		return fmt.Sprintf("sha224-%056x", id) // first pass: a distinct placeholder per item
 	}
 	w := &world.World{}
 	for _, it := range sw.Items {
@@ -161,7 +161,8 @@ func buildWorld(sw *SWorld, s *world.Signers) *world.Built {
 	for pass := 0; pass < 12; pass++ {
 		b, err := world.Build(toWorld(sw, refs), s)
 		if err != nil {
-			fatal("building world", sw.Name, err)
+			j, _ := json.Marshal(sw.Items)
+			fatal("building world", sw.Name, err, string(j))
 		}
 		same := len(refs) == len(b.Refs)
 		for id, r := range b.Refs {
@@ -271,6 +272,9 @@ func runShare(tw *traceWriter, secring, in string, random, rreq int, seed int64,
 		if err := json.Unmarshal(data, &inp); err != nil {
 			fatal("bad input:", err)
 		}
+		for i := range inp.Reqs {
+			inp.Reqs[i].Gen = true
+		}
 	}
 	now := int(time.Since(world.Epoch).Seconds())
 	byWorld := map[int][]SReq{}
@@ -372,8 +376,8 @@ func doShareReq(h http.Handler, sw *SWorld, built *world.Built, r SReq) map[stri
 		}
 		var asm []byte
 		asmOK := false
-		if r.Asm && last != 0 {
-			asm, asmOK = denote(sw, last)
+		if r.Asm && last != 0 && sw.Items[last-1].Kind == "file" {
+			asm, asmOK = denote(sw, last) // "contents of a file" is defined for files only
 		}
 		switch {
 		case r.Method == "HEAD":
@@ -385,6 +389,8 @@ func doShareReq(h http.Handler, sw *SWorld, built *world.Built, r SReq) map[stri
 				cls = "head-ok"
 			case !r.Asm && want != nil && cl == fmt.Sprint(len(want)):
 				cls = "head-ok"
+			case cl == "0":
+				cls = "head-empty"
 			default:
 				cls = "head-wrong"
 			}
@@ -392,6 +398,8 @@ func doShareReq(h http.Handler, sw *SWorld, built *world.Built, r SReq) map[stri
 			cls = "asm-exact"
 		case want != nil && bytes.Equal(body, want):
 			cls = "exact"
+		case len(body) == 0:
+			cls = "empty"
 		default:
 			cls = "wrong-bytes"
 			for id, bb := range built.Blobs {
@@ -403,9 +411,12 @@ func doShareReq(h http.Handler, sw *SWorld, built *world.Built, r SReq) map[stri
 	case 400, 401, 403, 404, 405:
 		cls = fmt.Sprint(rec.Code)
 	default:
-		cls = fmt.Sprintf("other-%d", rec.Code)
+		cls = "other"
+		if rec.Code/100 == 5 {
+			cls = "5xx"
+		}
 	}
-	return map[string]any{"ev": "req", "chain": r.Chain, "method": r.Method, "asm": r.Asm, "cls": cls, "gserved": r.GServed}
+	return map[string]any{"ev": "req", "chain": r.Chain, "method": r.Method, "asm": r.Asm, "cls": cls, "gen": r.Gen, "gserved": r.GServed}
 }
 
 // ---------------------------------------------------------------- seeded random worlds
